@@ -141,6 +141,25 @@ def gen_trace(recipe):
         Qi = Q.astype(dt)
         ev['reprs'].append({'name': 'get_metric_on_%s_vectors' % np.dtype(dt).name,
                             'pd': obs.dyv([metric(Qi[i], Qi[j]) for i, j in P]), 'transform': obs.dym(est.transform(Xq))})
+    # the query points kept in an INTEGER-typed preprocessor array and addressed by index (a second estimator with the same
+    # options fitted on the same formed training data: the same model, C17)
+    import warnings as _w2
+    for dt in (np.uint8, np.uint16, np.int8, np.uint64):
+      info = np.iinfo(dt)
+      shift = (np.floor(-Xq.min(axis=0)) + 3) if info.min == 0 else np.zeros(d)
+      Q = Xq + shift
+      if not (Q.min() >= info.min and Q.max() <= info.max) or not isinstance(opts.get('preprocessor'), np.ndarray):
+        continue
+      est_i = gen.CLS[name](**dict(opts, preprocessor=Q.astype(dt)))
+      try:
+        with _w2.catch_warnings():
+          _w2.simplefilter('ignore')
+          est_i.fit(*tr['fit_args'], **tr['fit_kwargs'])
+      except Exception:
+        continue
+      if est_i.components_.shape == est.components_.shape and np.array_equal(est_i.components_, est.components_):
+        ev['reprs'].append({'name': 'indices_into_%s_store' % np.dtype(dt).name, 'pd': obs.dyv(est_i.pair_distance(np.asarray(P))),
+                            'transform': obs.dym(est.transform(Xq))})       # (the embedding is not translation invariant: not compared)
   # single-pair batches
   single = np.concatenate([est.pair_distance(pairs[i:i + 1]) for i in range(len(P))])
   tsingle = np.vstack([est.transform(Xq[i:i + 1]) for i in range(nq)])
